@@ -336,7 +336,7 @@ Proof. intros H. unfold apply_indexed.
     pose proof (Inv_with_doc g e d1 H RA MA) as H1.
     match goal with |- context[let '(a, before) := ?X in _] => destruct X as [a before] end.
     destruct a as [au|]; [|leafI; exact H1].
-    destruct (negb (is_direct au d1)); [leafI; exact H|].
+    destruct (place_uid au before d1) as [pu|]; [|leafI; exact H].
     set (style := if before then _ else _).
     destruct (inline_text nw).
     + destruct (ins_inline_inv g (with_doc e d1) nw style false H1) as [H2 Hi].
@@ -809,7 +809,7 @@ Proof. unfold apply_indexed, sdoc.
   - pose proof (anchor_keeps_tape (e_doc e) sp st) as RA. destruct (insertion_anchor (e_doc e) sp st) as [d1 a0]. cbn [fst] in RA.
     match goal with |- context[let '(a, before) := ?X in _] => destruct X as [a before] end.
     destruct a as [au|]; [|cbn [fst snd set_eng s_eng with_doc e_doc]; intros _; exact RA].
-    destruct (negb (is_direct au d1)); [leafA|].
+    destruct (place_uid au before d1) as [pu|]; [|leafA].
     destruct (inline_text nw).
     + match goal with |- context[ins_inline ?a ?b ?c ?d] => destruct (ins_inline a b c d) as [e2 ins] end. leafA.
     + destruct (para_rec au d1); [|leafA].
@@ -995,3 +995,30 @@ Lemma apply_located_deleted (s : est) (uc : bool) (st ml : nat) (nw cm : str) :
   existsb (fun x => is_some_nonempty (o_del x)) (filter (fun x => o_real x && (st <? o_end x) && (o_start x <? st + ml)) sp) = true ->
   apply_located s uc st ml nw cm = (s, Skipped).
 Proof. cbn zeta. intros H. unfold apply_located. now rewrite H. Qed.
+
+(* fix D59: the element new text is placed next to is always a DIRECT child of a paragraph - the anchor run itself, or the tracked-change
+   wrapper whose outermost run (on the side of the insertion) the anchor is; a w:ins is never put inside somebody's wrapper *)
+Lemma edge_wrapper_spec uid before : forall ns u, edge_wrapper uid before ns = Some u ->
+  exists k m cs r, In (NWrap u k m cs) ns /\ (if before then hd_error cs else last_opt cs) = Some r /\ is_run uid r = true.
+Proof. induction ns as [|n ns IH]; intros u H; cbn [edge_wrapper] in H; [discriminate|].
+  destruct n as [u0 f ks|u0 k m cs|c|c|o]; try (destruct (IH u H) as (k' & m' & cs' & r & Hi & He & Hr); exists k', m', cs', r; repeat split; auto; now right).
+  destruct (if before then hd_error cs else last_opt cs) as [r|] eqn:E.
+  - destruct (is_run uid r) eqn:Er.
+    + inversion H; subst. exists k, m, cs, r. repeat split; auto. now left.
+    + destruct (IH u H) as (k' & m' & cs' & r' & Hi & He & Hr). exists k', m', cs', r'. repeat split; auto. now right.
+  - destruct (IH u H) as (k' & m' & cs' & r' & Hi & He & Hr). exists k', m', cs', r'. repeat split; auto. now right. Qed.
+Lemma fold_first_some {A B} (f : A -> option B) : forall l acc b,
+  fold_left (fun acc x => match acc with Some _ => acc | None => f x end) l acc = Some b -> acc = Some b \/ exists x, In x l /\ f x = Some b.
+Proof. induction l as [|x l IH]; intros acc b H; cbn [fold_left] in H; [now left|].
+  apply IH in H as [H|(y & Hy & Hf)].
+  - destruct acc as [a|]; [now left|]. right. exists x. split; [now left|exact H].
+  - right. exists y. split; [now right|exact Hf]. Qed.
+Theorem place_uid_direct au before d pu : place_uid au before d = Some pu ->
+  exists p n, In p (doc_paras d) /\ In n (p_nodes p) /\ has_uid pu n = true.
+Proof. unfold place_uid. destruct (is_direct au d) eqn:E.
+  - intros H. inversion H; subst. unfold is_direct in E. apply existsb_exists in E as (p & Hp & E).
+    apply existsb_exists in E as (n & Hn & E). exists p, n. repeat split; auto.
+    destruct n; cbn [is_run] in E; try discriminate. exact E.
+  - intros H. apply fold_first_some in H as [H|(p & Hp & H)]; [discriminate|].
+    apply edge_wrapper_spec in H as (k & m & cs & r & Hi & _ & _). exists p, (NWrap pu k m cs). repeat split; auto.
+    cbn [has_uid]. apply Nat.eqb_refl. Qed.
